@@ -497,6 +497,34 @@ theorem C15_parse_string_int_slice (k : IntKind) (hk : k ≠ .uintptr) (vs : Lis
     rw [Tf.mapM'_ok _ _ _ hitems]
     simp [List.map_map, Function.comp_def, parseIntLit_formatInt]
 
+/-- `parse.String(text, []string)`: comma-separated bare words give exactly those strings (the empty text the empty slice). -/
+theorem C15_parse_string_str_slice (ws : List S) (hw : ∀ w ∈ ws, BareWord false w) :
+    Tf.parseString Tf.scanTable (String.ofList (joinComma ws)) (.slice (.basic .str false))
+      = .ok (.list (ws.map fun w => .s (String.ofList w))) := by
+  have htext := C15_bare_words_text ws hw
+  cases ws with
+  | nil => simp [Tf.parseString, joinComma, stringSlice, Tf.isPlainString]
+  | cons x xs =>
+    have hx := (hw x (by simp)).1
+    have hne : joinComma (x :: xs) ≠ [] := by
+      cases x with
+      | nil => exact absurd rfl hx
+      | cons c cs => cases xs <;> simp [joinComma]
+    have hstr : (String.ofList (joinComma (x :: xs)) == "") = false := by
+      rw [beq_eq_false_iff_ne]
+      intro h
+      have := congrArg String.toList h
+      simp at this
+      exact hne this
+    have hisE : (joinComma (x :: xs)).isEmpty = false := by
+      cases hj : joinComma (x :: xs) with
+      | nil => exact absurd hj hne
+      | cons _ _ => rfl
+    simp only [sliceText, hisE, Bool.false_eq_true, if_false, Option.map_eq_some_iff] at htext
+    obtain ⟨toks, hscan, hsplit⟩ := htext
+    simp only [Tf.parseString, Tf.scanTable, String.toList_ofList, hscan, Option.getD_some, hstr, hsplit, Tf.isPlainString]
+    simp
+
 /-! ### durations and bools (models of time.Duration.String, time.ParseDuration, strconv.ParseBool; tied by stream 10) -/
 
 /-- Durations: what Duration.String prints for ANY int64 value - sub-microsecond, fractional micro-, milli- and seconds,
